@@ -3,6 +3,7 @@ mod exprcase;
 mod lexcase;
 mod render;
 mod session;
+mod shell;
 mod val;
 
 use serde_json::{json, Value};
@@ -155,6 +156,7 @@ fn main() {
         Some("replay") => replay(&args[2..]),
         Some("drive") => drive_cmd(&args[2..]),
         Some("debug") => debug_cmd(&args[2..]),
+        Some("shell") => shell::shell_cmd(&args[2..]),
         Some("render1") => {
             // one command per stdin line -> its source text
             for line in std::io::stdin().lock().lines() {
